@@ -79,6 +79,8 @@ func VerifC19UnaryServer() {
 			fallbackUsed = true
 			return nil, nil
 		}))
+	} else if rt.Bool("nilFallback") {
+		opts = append(opts, WithUnaryServerBlockFallback(nil)) // an explicitly nil fallback counts as not configured
 	}
 	ic := NewUnaryServerInterceptor(opts...)
 	var err error
@@ -100,6 +102,8 @@ func VerifC19StreamServer() {
 			fallbackUsed = true
 			return nil
 		}))
+	} else if rt.Bool("nilFallback") {
+		opts = append(opts, WithStreamServerBlockFallback(nil)) // an explicitly nil fallback counts as not configured
 	}
 	ic := NewStreamServerInterceptor(opts...)
 	var err error
@@ -121,6 +125,8 @@ func VerifC19UnaryClient() {
 			fallbackUsed = true
 			return nil
 		}))
+	} else if rt.Bool("nilFallback") {
+		opts = append(opts, WithUnaryClientBlockFallback(nil)) // an explicitly nil fallback counts as not configured
 	}
 	ic := NewUnaryClientInterceptor(opts...)
 	var err error
@@ -142,6 +148,8 @@ func VerifC19StreamClient() {
 			fallbackUsed = true
 			return nil, nil
 		}))
+	} else if rt.Bool("nilFallback") {
+		opts = append(opts, WithStreamClientBlockFallback(nil)) // an explicitly nil fallback counts as not configured
 	}
 	ic := NewStreamClientInterceptor(opts...)
 	var err error
